@@ -29,6 +29,28 @@ Theorem C17_heap_pops_minimal :
 Proof. exact heap_pops_minimal_from_empty. Qed.
 Print Assumptions C17_heap_pops_minimal.
 
+(* NewHeapFromIterator pushes every value the iterator delivers: whatever prefix of the source was
+   consumed (the iterator completed, failed at some position, or the context was cancelled), the
+   returned heap is sorted and holds exactly that prefix ... *)
+Theorem C17_heap_from_iterator :
+  forall (lt : Z -> Z -> bool), strict_weak_order lt ->
+  forall consumed, sorted lt (heap_from_list lt consumed) /\ Permutation (heap_from_list lt consumed) consumed.
+Proof. exact heap_from_list_sorted_perm. Qed.
+Print Assumptions C17_heap_from_iterator.
+
+(* ... and under every later push/pop sequence each pop is minimal and nothing is lost or invented. *)
+Theorem C17_heap_from_iterator_pops_minimal :
+  forall (lt : Z -> Z -> bool), strict_weak_order lt -> forall consumed ops, pops_minimal lt (heap_from_list lt consumed) ops.
+Proof. exact heap_from_list_pops_minimal. Qed.
+Print Assumptions C17_heap_from_iterator_pops_minimal.
+
+Theorem C17_heap_from_iterator_conserves :
+  forall (lt : Z -> Z -> bool), strict_weak_order lt -> forall consumed ops,
+    Permutation (somes (fst (heap_run lt (heap_from_list lt consumed) ops)) ++ snd (heap_run lt (heap_from_list lt consumed) ops))
+                (pushed ops ++ consumed).
+Proof. exact heap_from_list_conserves. Qed.
+Print Assumptions C17_heap_from_iterator_conserves.
+
 (* ---------------------------------------------------------------- sorting on the pointer-level model of dt.List
    (Model/ListHeap.v; WF w E is the C16 invariant with ghost element lists E; abs w E l = the values of list l) *)
 
@@ -56,7 +78,11 @@ Proof. exact sort_merge_sorted_l. Qed.
 Print Assumptions sort_merge_sorted.
 
 (* ... and the list stays fully usable: the result is well-formed (so every C16 theorem applies to
-   what follows), every element is owned by the receiver (In(l) holds), other lists are untouched. *)
+   what follows), every element is owned by the receiver (In(l) holds), other lists are untouched.
+   WF INCLUDES THE SENTINEL: wf_own (Proofs/ListHeap_wf.v) says owner n = Some l exactly for the nodes
+   of cyc_of w E l = root :: E l, so `owner root = l` is part of the conclusion -- a SortMerge that
+   adopts the merged chain and leaves the sentinel owned by a temporary list (after which PushFront,
+   or any push into the drained list, is booked on the dead list) does not satisfy this theorem. *)
 Theorem sort_merge_usable :
   forall lt w E l, WF w E -> (l < lfresh w)%nat ->
     exists w' E', SortMerge lt l w = Ret tt w' /\ WF w' E' /\ (l < lfresh w')%nat /\ owned_by w' l (E' l) /\
